@@ -1,0 +1,4 @@
+// Package verif provides hook points used by external verification machinery
+// (deterministic simulation). All of its functions are no-ops unless the verif
+// build tag is specified.
+package verif
